@@ -184,6 +184,109 @@ def inproc(ctx):
         zcases.append({"cfg": cfg, "forest": fo, "evs": evs, "res": res})
         ctx.case(key=("sel2z", repr(cfg), tuple(evs)), tags=["sel2-spec", "sel2:-Z", "shape:" + cfg["shape"]] +
                  sorted({"sel2:" + k for t in cfg["trig"].values() for k in t}), size=len(evs))
+    # the finish trigger: one function has -T f@finish, on top of a random option set (filters, depth limit, switches);
+    # the records of the implementation against the model run that stops at the first firing entry, and - same
+    # options and history - the two instrumentation shapes against each other
+    fincases = []
+    for i in range(ctx.n(20, 200)):
+        cfg = {"trig": {}, "pattern": rng.choice(["simple", "regex", "glob"])}
+        ks = rng.sample(range(6), rng.randrange(1, 4))
+        cfg["trig"][ks[0]] = {"finish": True}
+        if rng.random() < 0.3:
+            cfg["trig"][ks[0]]["filter"] = rng.random() < 0.5
+        for k in ks[1:]:
+            tr = {}
+            r = rng.random()
+            if r < 0.35:
+                tr["filter"] = rng.random() < 0.6
+            elif r < 0.5:
+                tr["depth"] = rng.choice([0, 1, 2])
+            elif r < 0.65:
+                tr["time"] = rng.choice([0, 5, 100])
+            elif r < 0.8:
+                tr["trace_off"] = True
+            else:
+                tr["trace_on"] = True
+            cfg["trig"][k] = tr
+        if rng.random() < 0.6:
+            cfg["depth"] = rng.choice([1, 2, 3])
+        if rng.random() < 0.3:
+            cfg["threshold"] = rng.choice([1, 5, 10])
+        fo = F.assign_times(rng, F.gen_shape(rng, 6, rng.choice([4, 8, 16]), 5), durs=DURS)
+        evs = F.flatten(fo)
+        r1 = mcgen.run_case(h, dict(cfg, shape="pg"), evs)
+        r2 = mcgen.run_case(h, dict(cfg, shape="cyg"), evs)
+        fincases.append({"cfg": cfg, "evs": evs, "pg": r1, "cyg": r2})
+        ctx.case(key=("finish", repr(cfg), tuple(evs)), tags=["finish-trigger"] +
+                 sorted({"fin:" + k for t in cfg["trig"].values() for k in t}), size=len(evs))
+    # option LISTS (utils/filter.c setup_trigger / update_trigger and the counts): several options may hit the same function,
+    # a later one overrides an earlier one action by action, patterns may match several functions; the trigger table and
+    # filter_count / caller_count come from the model (Mcount/Table.v cfg_of_opts).  Both shapes, same options + history.
+    optcases = []
+    for i in range(ctx.n(30, 300)):
+        pt = rng.choice(["regex", "regex", "glob", "simple"])
+        cfg = {"pattern": pt, "opts": []}
+
+        def some_ks():
+            if pt == "simple" or rng.random() < 0.4:
+                return [rng.randrange(6)]
+            return sorted(rng.sample(range(6), rng.randrange(2, 4)))
+        # UFTRACE_FILTER: -F / -N in command-line order
+        fopts = []
+        for _ in range(rng.randrange(1, 4)):
+            inc = rng.random() < 0.5
+            fopts.append({"kind": "F" if inc else "N", "ks": some_ks(), "acts": [("filter", inc)]})
+        # UFTRACE_TRIGGER
+        topts = []
+        for _ in range(rng.randrange(0, 3)):
+            acts = []
+            r = rng.random()
+            if r < 0.3:
+                acts.append(("filter", rng.random() < 0.5))
+            if rng.random() < 0.4:
+                acts.append(("depth", rng.choice([1, 2, 3])))
+            if rng.random() < 0.3:
+                acts.append(("time", rng.choice([0, 5, 100])))
+            if rng.random() < 0.2:
+                acts.append(("trace", True))
+            if rng.random() < 0.15:
+                acts.append((rng.choice(["trace_on", "trace_off"]), True))
+            if not acts:
+                acts.append(("depth", 2))
+            topts.append({"kind": "T", "ks": some_ks(), "acts": acts})
+        copts = [{"kind": "C", "ks": some_ks(), "acts": [("caller", True)]}] if rng.random() < 0.25 else []
+        cfg["opts"] = fopts + topts + copts
+        if rng.random() < 0.5:
+            cfg["depth"] = rng.choice([1, 2, 3, 4])
+        if rng.random() < 0.4:
+            cfg["threshold"] = rng.choice([1, 5, 10])
+        fo = F.assign_times(rng, F.gen_shape(rng, 6, rng.choice([4, 8, 16]), 5), durs=DURS)
+        evs = F.flatten(fo)
+        r1 = mcgen.run_case(h, dict(cfg, shape="pg"), evs)
+        r2 = mcgen.run_case(h, dict(cfg, shape="cyg"), evs)
+        optcases.append({"cfg": cfg, "evs": evs, "pg": r1, "cyg": r2})
+        overlap = len({k for o in cfg["opts"] for k in o["ks"]}) < sum(len(o["ks"]) for o in cfg["opts"])
+        ctx.case(key=("opts", repr(cfg), tuple(evs)), tags=["option-list", "opts:overlap=" + str(overlap), "opts:pattern=" + pt],
+                 size=len(evs))
+    # record --disable (tracing starts switched off) with trace_on / trace_off triggers and filters
+    offcases = []
+    for i in range(ctx.n(15, 150)):
+        cfg = {"shape": rng.choice(["pg", "cyg"]), "trig": {}, "pattern": "simple", "disable": True}
+        ks = rng.sample(range(6), rng.randrange(1, 4))
+        cfg["trig"][ks[0]] = {"trace_on": True}
+        for k in ks[1:]:
+            r = rng.random()
+            cfg["trig"][k] = ({"trace_off": True} if r < 0.35 else {"filter": rng.random() < 0.6} if r < 0.6 else
+                              {"depth": rng.choice([1, 2])} if r < 0.8 else {"time": rng.choice([5, 100])})
+        if rng.random() < 0.4:
+            cfg["depth"] = rng.choice([2, 3, 4])
+        if rng.random() < 0.4:
+            cfg["threshold"] = rng.choice([1, 5])
+        fo = F.assign_times(rng, F.gen_shape(rng, 6, rng.choice([6, 12, 20]), 5), durs=DURS)
+        evs = F.flatten(fo)
+        res = mcgen.run_case(h, cfg, evs)
+        offcases.append({"cfg": cfg, "evs": evs, "res": res})
+        ctx.case(key=("disable", repr(cfg), tuple(evs)), tags=["record--disable", "shape:" + cfg["shape"]], size=len(evs))
     # ---- evaluate in Coq
     terms = [mcgen.case_term(c["cfg"], c["evs"], c["res"]) for c in cases]
     defs = "Definition cases : list case4 := [\n%s\n].\n" % ";\n".join(terms)
@@ -213,14 +316,16 @@ def inproc(ctx):
         return "None" if v is None else "Some " + (f % v)
     sizes_term = "[%s]" % "; ".join("(%d, %d)" % (256 * i, z) for i, z in enumerate(mch.SIZES))
     def sel2_term(c, z=None):
-        tg = "; ".join("(%d, {| sf := %s; sd := %s; stm := %s; ssz := %s; str := %s; sc := %s |})" % (
+        tg = "; ".join("(%d, {| sf := %s; sd := %s; stm := %s; ssz := %s; str := %s; sc := %s; sl := %s |})" % (
             256 * k, "None" if t.get("filter") is None else "Some " + coq.coq_bool(t["filter"]),
             opt(t.get("depth")), opt(t.get("time")), opt(t.get("size")), coq.coq_bool(t.get("trace")),
-            coq.coq_bool(t.get("caller"))) for k, t in sorted(c["cfg"]["trig"].items()))
-        return "%s [%s] %s %s %s %d %d %s%s %s" % (
+            coq.coq_bool(t.get("caller")), "None" if t.get("loc") is None else "Some " + coq.coq_bool(t["loc"]))
+            for k, t in sorted(c["cfg"]["trig"].items()))
+        return "%s [%s] %s %s %s %s %d %d %s%s %s" % (
             "ok_sel2" if z is None else "ok_sel2z", tg, sizes_term,
             coq.coq_bool(any(t.get("filter") is True for t in c["cfg"]["trig"].values())),
             coq.coq_bool(any(t.get("caller") for t in c["cfg"]["trig"].values())),
+            coq.coq_bool(any(t.get("loc") is True for t in c["cfg"]["trig"].values())),
             c["cfg"].get("depth") if c["cfg"].get("depth") is not None else 1024, c["cfg"].get("threshold") or 0,
             "" if z is None else "%d " % z, F.coq_forest(c["forest"]), mcgen.coq_recs(c["res"]["recs"]))
     sel2_terms = [sel2_term(c) for c in sel2cases]
@@ -228,10 +333,23 @@ def inproc(ctx):
         "(%d, %s)" % (c["cfg"]["min_size"], mcgen.case_term(c["cfg"], c["evs"], c["res"])) for c in zcases)
     defs += "Definition sel2zchk : list bool := [\n%s\n].\n" % ";\n".join(sel2_term(c, c["cfg"]["min_size"]) for c in zcases)
     defs += "Definition sel2chk : list bool := [\n%s\n].\n" % ";\n".join(sel2_terms)
+    defs += "Definition fincases : list (cfg * list ev * list seen5 * bool) := [\n%s\n].\n" % ";\n".join(
+        "(%s, %s, %s, %s)" % (F.coq_cfg(dict(c["cfg"], shape=sh), mch.SIZES), F.coq_events(c["evs"]),
+                              mcgen.coq_recs(c[sh]["recs"]), coq.coq_bool(sh == "pg"))
+        for c in fincases for sh in ("pg", "cyg"))
+    defs += "Definition offcases : list case4 := [\n%s\n].\n" % ";\n".join(
+        mcgen.case_term(c["cfg"], c["evs"], c["res"]) for c in offcases)
+    defs += "Definition optcases : list case4 := [\n%s\n].\n" % ";\n".join(
+        mcgen.case_term(dict(c["cfg"], shape=sh), c["evs"], c[sh]) for c in optcases for sh in ("pg", "cyg"))
     res = coq.run_cases(ctx, "c05_cases", mcgen.PRE, defs, [
         ("sel", "bad_indices (fun b : bool => b) selchk 0"),
         ("sel2", "bad_indices (fun b : bool => b) sel2chk 0"),
         ("sel2z", "bad_indices (fun b : bool => b) sel2zchk 0"),
+        ("opts", "bad_indices agree4 optcases 0"),
+        ("off", "bad_indices agree4off offcases 0"),
+        ("fin", "bad_indices (fun p : cfg * list ev * list seen5 * bool => let '(a, b, r, _) := p in ok_fin a b r) fincases 0"),
+        ("finfired", "bad_indices (fun p : cfg * list ev * list seen5 * bool => let '(a, b, _, _) := p in negb (fin_fired a b)) "
+                     "fincases 0"),
         ("zmismatch", "bad_indices agree4z zcases 0"),
         ("mismatch", "bad_indices agree4 cases 0"),
         ("leaky", "bad_indices (fun c : case4 => let '(a, b, _, _) := c in negb (leaky a b)) cases 0"),
@@ -292,6 +410,43 @@ def inproc(ctx):
                       {"correspondence": "UV.Mcount.Model (init_z) vs libmcount hooks (state after each hook + records)",
                        "cfg": c["cfg"], "env": mch.cfg_env(c["cfg"]), "events": c["evs"],
                        "impl_states": c["res"]["states"], "impl_records": c["res"]["recs"]}, False)
+    ctx.extra["finish_cases_in_which_the_trigger_fired"] = len(R["finfired"])
+    finm = [j for j, c in enumerate(fincases) if c["pg"]["recs"] != c["cyg"]["recs"]]
+    for j in finm[:2]:
+        c = fincases[j]
+        ctx.violation("C05: with a finish trigger the recorded trace depends on the instrumentation method",
+                      {"mode": "pair", "cfg": c["cfg"], "events": c["evs"], "pg_records": c["pg"]["recs"],
+                       "cyg_records": c["cyg"]["recs"], "env": mch.cfg_env(c["cfg"])}, True)
+    if R["fin"] and not finm:
+        c = fincases[R["fin"][0] // 2]
+        ctx.violation("model and libmcount disagree on %d finish-trigger case(s) (records after the run); the two "
+                      "instrumentation shapes agree with each other on every explored case" % len(R["fin"]),
+                      {"correspondence": "UV.Mcount.Model exec_f / finish_enter vs libmcount (-T f@finish)",
+                       "cfg": c["cfg"], "env": mch.cfg_env(c["cfg"]), "events": c["evs"],
+                       "pg_records": c["pg"]["recs"], "cyg_records": c["cyg"]["recs"]}, False)
+    optm = [j for j, c in enumerate(optcases) if c["pg"]["recs"] != c["cyg"]["recs"]]
+    for j in optm[:2]:
+        c = optcases[j]
+        ctx.violation("C05: with several options on the same functions the recorded trace depends on the instrumentation method",
+                      {"mode": "pair", "cfg": c["cfg"], "events": c["evs"], "pg_records": c["pg"]["recs"],
+                       "cyg_records": c["cyg"]["recs"], "env": mch.cfg_env(c["cfg"])}, True)
+    for j in R["opts"][:2]:
+        c = optcases[j // 2]
+        sh = ("pg", "cyg")[j % 2]
+        # the model computes the trigger table from the option list as documented (later options override, the opt-in
+        # mode is on iff an opt-in filter matched): a disagreement is a selection that differs from the documented one
+        ctx.violation("C05: the recorded selection differs from the documented meaning of the option list (trigger table / "
+                      "filter mode built by utils/filter.c vs Mcount/Table.v)",
+                      {"mode": "inproc", "cfg": dict(c["cfg"], shape=sh), "events": c["evs"],
+                       "impl_states": c[sh]["states"], "impl_records": c[sh]["recs"],
+                       "env": mch.cfg_env(c["cfg"])}, True)
+    if R["off"]:
+        c = offcases[R["off"][0]]
+        ctx.violation("model and libmcount disagree on %d case(s) recorded with --disable (tracing starts switched off)"
+                      % len(R["off"]),
+                      {"correspondence": "UV.Mcount.Model from init_off vs libmcount with UFTRACE_TRACE_OFF (state after each hook + "
+                       "records)", "cfg": c["cfg"], "env": mch.cfg_env(c["cfg"]), "events": c["evs"],
+                       "impl_states": c["res"]["states"], "impl_records": c["res"]["recs"]}, False)
     for j in R["method"][:2]:
         p = pairs[j]
         ctx.violation("C05: recorded trace depends on the instrumentation method",
@@ -337,14 +492,19 @@ def e2e(ctx, objdir):
     uft = os.path.join(objdir, "uftrace")
     work = os.path.join(ctx.scratch, "e2e")
     os.makedirs(work, exist_ok=True)
-    for pi in range(ctx.n(3, 16)):
+    for pi in range(ctx.n(6, 24)):
         fo_main = F.gen_shape(rng, 6, rng.choice([6, 12, 25]), 6)
-        src, names = c02.c_program(fo_main, [])
+        # source locations for -L: every function class lies in "file" locA.c or locB.c, main in locmain.c
+        locbit = rng.randrange(2)
+
+        def loc_of(k):
+            return "AB"[(k + locbit) % 2]
+        src, names = c02.c_program(fo_main, [], loc_of=loc_of)
         cfile = os.path.join(work, "q%d.c" % pi)
         open(cfile, "w").write(src)
         method, cflags, rflags = rng.choice(c02.METHODS[:3])
         exe = os.path.join(work, "q%d" % pi)
-        rc, o, e = sh(["gcc", "-O1", "-o", exe, cfile, "-pthread"] + cflags, timeout=120)
+        rc, o, e = sh(["gcc", "-O1", "-g", "-o", exe, cfile, "-pthread"] + cflags, timeout=120)
         if rc != 0:
             ctx.broken("e2e program does not compile", e[-400:])
             continue
@@ -373,6 +533,14 @@ def e2e(ctx, objdir):
             k = rng.choice(others)
             trig[k] = {"caller": True}
             opts += rng.choice([["-C", "_f%d$" % k], ["-T", "_f%d$@caller" % k]])
+        # location filter: show only locA.c / hide locA.c (-L locA.c[@hide]); main (locmain.c) is outside every named location
+        in_a = [k for k in present if loc_of(k) == "A"]
+        lmode = None
+        if in_a and rng.random() < 0.5:
+            lmode = rng.choice(["show", "hide"])
+            for k in in_a:
+                trig.setdefault(k, {})["loc"] = (lmode == "show")
+            opts += ["-L", "locA.c" + ("@hide" if lmode == "hide" else "")]
         cfg = {"shape": "cyg" if method == "cyg" else "pg", "trig": trig}
         if rng.random() < 0.5:
             cfg["depth"] = rng.choice([1, 2, 3, 4])
@@ -404,7 +572,8 @@ def e2e(ctx, objdir):
             ("model", "let '(a, b) := c in map (fun r : rec => (type_code (r_type r), r_depth r, r_addr r)) "
                       "(out (fst (exec a b (init, []))))"),
             ("leaky", "let '(a, b) := c in leaky a b")])
-        ctx.case(key=("e2e", method, tuple(opts), src), tags=["e2e:" + method, "e2e:opts=%d" % len(opts)], size=len(evs))
+        ctx.case(key=("e2e", method, tuple(opts), src), tags=["e2e:" + method, "e2e:opts=%d" % len(opts),
+                                                             "e2e:-L=" + str(lmode)], size=len(evs))
         if r is None:
             continue
         import re
@@ -424,16 +593,21 @@ def meta(ctx):
         "Coq 8.16.1 kernel incl. vm_compute; no axioms (Print Assumptions: closed)",
         "model coq/theories/Mcount/Model.v (mcount_entry_filter_check / _record, mcount_exit_filter_record, "
         "record_trace_data, both shapes); executable checkers coq/theories/Mcount/Check.v",
-        "mapping option strings -> trigger table in vf/mch.py cfg_env / vf/forest.py coq_cfg (one spec per function)",
+        "mapping option strings -> trigger table: modelled in Mcount/Table.v (option list -> table and counts) for the "
+        "option-list cases, vf/mch.py cfg_env spells the options; elsewhere one spec per function (vf/forest.py coq_cfg)",
         "harness/c/mc_harness.c, generated Gen/Consts.v",
     ]
     ctx.assume = [
         "pattern matching itself (regexec/fnmatch) and the option -> trigger-table translation (utils/filter.c) are "
         "exercised by the tie but not modelled; one trigger spec per function",
-        "source-location filters (-L), finish, recover, argument capture and events are outside this model",
+        "recover, argument capture and events are outside this model; the finish trigger is modelled at the level of the "
+        "thread's stream (exec_f: the run stops at the first firing entry; what other threads do after the global flag "
+        "is set is not modelled); the location filter -L is in the model and in "
+        "the specification sel2 (theorems quantify over it) but its tie is end-to-end only (generated programs whose "
+        "functions carry #line source locations; the in-process harness functions have no DWARF)",
         "refinement to the documented semantics is proved for -F/-N/-C/-D/-t and the trigger actions filter/notrace/"
         "depth=(>0)/time=/size=/trace (specifications sel, sel2, both instrumentation shapes); "
-        "trace_on/trace_off, finish, -L and depth=0 are tied by correspondence + the restoration and embedded-sub-history "
+        "trace_on/trace_off, finish and depth=0 are tied by correspondence (finish: records only) + the restoration and embedded-sub-history "
         "theorems only",
         "theorems quantify over complete call forests within --max-stack and clock readings < 2^64 that do not go "
         "backwards inside a call; end times are non-zero (libmcount uses 0 for 'still running')",
@@ -442,7 +616,7 @@ def meta(ctx):
 
 def run(ctx):
     meta(ctx)
-    coq.prove(ctx, "C05", extra_files=["Mcount/Check"])
+    coq.prove(ctx, "C05", extra_files=["Mcount/Check", "Mcount/Table"])
     objdir = build.get_build("plain", ctx.log)
     inproc(ctx)
     known_leak(ctx)
@@ -451,7 +625,7 @@ def run(ctx):
 
 def replay(ctx, obj):
     meta(ctx)
-    coq.prove(ctx, "C05", extra_files=["Mcount/Check"])
+    coq.prove(ctx, "C05", extra_files=["Mcount/Check", "Mcount/Table"])
     if "events" not in obj or "cfg" not in obj:
         return run(ctx)
     h = mch.Harness(ctx)
